@@ -68,8 +68,12 @@ def hash_contraction_b(inputs, output, size_dict):
         for ix in term:
             edges[ix].append(i)
 
-    # then sort edges by each's incidence nodes
-    canonical_edges = sortedtuple(map(sortedtuple, edges.values()))
+    # then sort edges by each's incidence nodes, n.b. the size needs to be
+    # attached to each edge - else contractions with the same sizes placed on
+    # different bonds, which have different costs, would share a hash
+    canonical_edges = sortedtuple(
+        (sortedtuple(nodes), size_dict[ix]) for ix, nodes in edges.items()
+    )
 
     return hashlib.sha1(
         pickle.dumps((canonical_edges, sortedtuple(size_dict.items())))
